@@ -179,6 +179,30 @@ CoreConfs2 == {Cf(<<a, b>>, fw, fw) : a \in {ProbM, ChainM, SigBoth(8)}, b \in {
                                        fw \in {Unset, Half}}
 
 ---------------------------------------------------------------------------
+\* C10: X is deterministic, never signals, has no transitions on Signal
+DetTimerM ==
+  Mach(0, Unset, 0, Unset,
+       <<St(UpdTimer(FALSE, Const(3), Const(2)), NoCtr, NoCtr,
+            [TimerBegin |-> Always(0), TimerEnd |-> Always(1), LimitReached |-> Always(1),
+             NormalSent |-> Always(0)]),
+         St(Cancel("All"), NoCtr, NoCtr, [NormalSent |-> Always(0), TimerEnd |-> <<T(END, 16)>>])>>)
+\* a CounterZero whose delivery is visible in the returned actions
+CzVisM ==
+  Mach(1000, Unset, 0, Unset,
+       <<St(NoAction, NoCtr, NoCtr, [NormalSent |-> Always(1)]),
+         St(NoAction, Ctr("inc"), NoCtr, [NormalRecv |-> Always(2), NormalSent |-> Always(1)]),
+         St(NoAction, Ctr("dec"), NoCtr, [CounterZero |-> Always(3), NormalSent |-> Always(1)]),
+         St(Pad(FALSE, FALSE, Const(6), NoDist), NoCtr, NoCtr, [NormalSent |-> Always(0)])>>)
+XMachines == {CzVisM, PadM(1, Half), PadM(0, Unset), BlockM(TRUE, 2, Half), BlockM(FALSE, 0, Unset),
+              LimM("pad", Const(1)), LimM("block", Const(1)), LimM("timer", Const(2)),
+              LimCzM("pad", Const(2)), CtrTwin, ChainM, DetTimerM, HugeM}
+YMachines == {CzVisM, PadM(1, Half), BlockM(TRUE, 2, Half), LimM("pad", Const(1)), CtrTwin, ChainM, ProbM,
+              SigOn("NormalSent"), SigBoth(8), DetTimerM}
+PairFamily(id) ==
+  CASE id = "quick"    -> {<<x, y>> : x \in XMachines, y \in {CzVisM, ProbM, SigOn("NormalSent"), BlockM(TRUE, 2, Half)}}
+    [] id = "thorough" -> {<<x, y>> : x \in XMachines, y \in YMachines}
+
+---------------------------------------------------------------------------
 FamilyConfs(id) ==
   CASE id = "pad-quick"    -> PadConfs({0, 1}, {Unset, Half}, {Unset, Half})
     [] id = "pad-thorough" -> PadConfs({0, 1, 2}, {Unset, Quarter, Half, One}, {Unset, Quarter, Half, One})
@@ -200,6 +224,15 @@ TimeStepsOf(id) ==
   CASE id = "one"   -> {1}
     [] id = "mixed" -> {0, 1, -2}
     [] id = "wide"  -> {0, 1, 3, -2}
+
+\* symbolic alphabets of the non-interference spec: "x" / "y" address the two
+\* machines, "u" an unknown id, "-" marks a global event
+SymGlob(E) == {<<e, "-">> : e \in E}
+SymAddr(E, Ws) == {<<e, w>> : e \in E, w \in Ws}
+SymAlphabetOf(id) ==
+  CASE id = "small" -> SymGlob({"NormalSent", "NormalRecv", "BlockingEnd"})
+                       \cup SymAddr({"PaddingSent", "BlockingBegin", "TimerBegin"}, {"x", "y"})
+    [] id = "full"  -> SymGlob(ExtKinds \ WithMachine) \cup SymAddr(WithMachine, {"x", "y", "u"})
 
 \* alphabets: machine ids 0, 1 and an unknown one (5)
 Glob(E) == {Ext(e, -1) : e \in E}
